@@ -122,10 +122,15 @@ Live(L) == SelectSeq(L, LAMBDA e : ~e.stop)
 \* ---- BaseMatching.update: strict improvement (first of equals wins), a live entry beats a stopped one
 Better(old, new) == (old.stop /\ ~new.stop) \/ (old.stop = new.stop /\ old.lp < new.lp)
 \* ---- LatticeColumn.upsert
+\* A stopped entry (DEBUG only) that is replaced by a live one is removed and the live one appended: the order of
+\* the live entries of a layer is then the same at every log level (OrderNeutralUnderDebug).
+DropAt(L, j) == SubSeq(L, 1, j - 1) \o SubSeq(L, j + 1, Len(L))
 Upsert(lat, m) ==
   LET L == LayerOf(lat, m.obs, m.ne)  j == IdxOf(L, Key(m)) IN
   SetLayer(lat, m.obs, m.ne,
-           IF j = 0 THEN Append(L, m) ELSE IF Better(L[j], m) THEN [L EXCEPT ![j] = m] ELSE L)
+           IF j = 0 THEN Append(L, m)
+           ELSE IF L[j].stop /\ ~m.stop THEN Append(DropAt(L, j), m)
+           ELSE IF Better(L[j], m) THEN [L EXCEPT ![j] = m] ELSE L)
 
 \* plain dictionary assignment  c[key] = m  (replaces whatever is stored under the key, keeps its position)
 Assign(lat, m) ==
@@ -255,7 +260,7 @@ NEInnerStep(I, cf, S, m, st, c, nb) ==
                ELSE IF j # 0 /\ ~L[j].stop THEN <<Upsert(lat, e), lb>>
                ELSE IF LbHas(lb, st) /\ ~(e.dist < lb[st].d) THEN
                        (IF cf.debug THEN <<Assign(lat, [e EXCEPT !.stop = TRUE]), lb>> ELSE S)   \* KeepStoppedUnderDebug
-               ELSE <<Assign(lat, e), LbSet(lb, st, [d |-> e.dist, lp |-> e.lp, k |-> Key(e)])>>
+               ELSE <<Upsert(lat, e), LbSet(lb, st, [d |-> e.dist, lp |-> e.lp, k |-> Key(e)])>>
 
 RECURSIVE NEInnerFold(_, _, _, _, _, _, _)
 NEInnerFold(I, cf, S, props, c, nb, j) ==
